@@ -237,6 +237,9 @@ func init() {
 		reg.AddW("C07", sc.Name, tier, w, func(t reg.Tier) *explore.Scenario {
 			x := sp
 			x.Fallback, x.DPORSec = 1, 3
+			if sp.C == 0 { // a quick-tier copy of a thorough scenario: no preemptions in the fallback search
+				x.Fallback = 0
+			}
 			if t == reg.Thorough {
 				x.Fallback, x.DPORSec = 2, 120
 			}
@@ -281,7 +284,13 @@ func init() {
 					if deco == 2 {
 						tier = reg.Thorough
 					}
-					add(tier, 1, spec{Cfg: cfg, Deco: deco, Consumer: cons, Actors: a.actors, C: a.cq}, a.ct)
+					// a Subscribe in flight while a blocking Publish waits for its unsettled message, then Close: Close
+					// is what releases the two (in quick for the decorated, blocking configurations)
+					cq := a.cq
+					if a.actors == "pub+close+subscribe" && deco == 1 && cfg.Blocking && cfg.Buf == 0 && (cons == "hold" || cons == "noread") {
+						tier, cq = reg.Quick, 0
+					}
+					add(tier, 1, spec{Cfg: cfg, Deco: deco, Consumer: cons, Actors: a.actors, C: cq}, a.ct)
 				}
 			}
 			for _, a := range noPub {
@@ -296,6 +305,7 @@ func init() {
 				for _, cons := range []string{"hold", "noread"} {
 					add(reg.Quick, 1, spec{Cfg: cfg, Deco: deco, Consumer: cons, Actors: "pub+close+close", C: 1}, 2)
 				}
+
 			}
 		}
 	}
